@@ -92,7 +92,32 @@ fn base_histories(rng: &mut Rng, n: usize) -> Vec<History> {
         }
     }
     v.push(freelist_reopen_history());
+    v.push(boundary_sweep_history());
     v
+}
+
+/// One value overwritten with every length within [k*ps - 100, k*ps + 20] (k = 1, 2) for every page
+/// size of the product up to 16 KiB, one byte per commit: whatever the configured page size is, the
+/// leaf that holds the value passes through "exactly one page", "exactly two pages" and their neighbours.
+fn boundary_sweep_history() -> History {
+    let mut lens: Vec<usize> = (0..64).collect();
+    for ps in SIZES.iter().filter(|p| **p <= 16384) {
+        for k in 1..=2usize {
+            let c = k * *ps as usize;
+            lens.extend(c - 100..=c + 20);
+        }
+    }
+    lens.sort();
+    lens.dedup();
+    let mut txs = vec![TxScript { ops: vec![Op::TxCreate { k: K::lit(b"fit"), how: How::Slice }, Op::Put { h: 0, k: K::lit(b"a-neighbour"), v: V { tag: 3, len: 90 }, how: How::Slice, vhow: How::Slice }], end: End::Commit, reopen: false }];
+    for (i, len) in lens.iter().enumerate() {
+        txs.push(TxScript {
+            ops: vec![Op::TxGet { k: K::lit(b"fit"), how: How::Slice }, Op::Put { h: 0, k: K::lit(b"swept"), v: V { tag: 1000 + i as u64, len: *len }, how: How::Slice, vhow: How::Slice }],
+            end: End::Commit,
+            reopen: i % 211 == 17,
+        });
+    }
+    History { pagesize: 1024, num_pages: 8, strict: false, populate: false, txs, origin: format!("boundary sweep: {} value lengths around the page-size multiples", lens.len()) }
 }
 
 /// A free list of more than a thousand entries (several pages at the small page sizes) that is
@@ -187,6 +212,31 @@ fn boundary_walk_history(ps: u64) -> History {
         txs.push(TxScript { ops, end: End::Commit, reopen: false });
     }
     History { pagesize: ps, num_pages: 4, strict: false, populate: false, txs, origin: format!("boundary walk across the first extension at page size {}", ps) }
+}
+
+/// A value of a little over 16 MiB is stored, deleted, and replaced by one whose leaf is exactly one
+/// byte longer than a whole number of pages, landing in the run the first one left, with small buckets
+/// created in between (their pages follow the run) and modified afterwards.  Sizes relative to the page
+/// size (rounding of byte counts to page counts) must not depend on the magnitude of the block.
+fn huge_value_history(ps: u64) -> History {
+    let p = ps as usize;
+    let k = (16 << 20) / p + 1; // pages: just past 16 MiB
+    let overhead = 40 + 32 + 1; // page header + leaf element + 1-byte key
+    let first = k * p - 100 - overhead;
+    let second = k * p + 1 - overhead;
+    let put = |h: H, key: &[u8], tag: u64, len: usize| Op::Put { h, k: K::lit(key), v: V { tag, len }, how: How::Slice, vhow: How::Slice };
+    let tx = |ops: Vec<Op>| TxScript { ops, end: End::Commit, reopen: false };
+    let mut txs = vec![
+        tx(vec![Op::TxCreate { k: K::lit(b"blob"), how: How::Slice }, put(0, b"k", 1, first)]),
+        tx(vec![Op::TxCreate { k: K::lit(b"tail"), how: How::Slice }, put(0, b"a", 2, 1)]),
+        tx(vec![Op::TxCreate { k: K::lit(b"tail2"), how: How::Slice }, put(0, b"a", 3, 1)]),
+        tx(vec![Op::TxGet { k: K::lit(b"blob"), how: How::Slice }, Op::Delete { h: 0, k: K::lit(b"k") }]),
+        tx(vec![Op::TxGet { k: K::lit(b"blob"), how: How::Slice }, put(0, b"k", 4, second)]),
+        tx(vec![Op::TxGet { k: K::lit(b"blob"), how: How::Slice }, Op::GetKv { h: 0, k: K::lit(b"k") }, Op::TxGet { k: K::lit(b"tail"), how: How::Slice }, Op::GetKv { h: 1, k: K::lit(b"a") }, Op::TxGet { k: K::lit(b"tail2"), how: How::Slice }, Op::GetKv { h: 2, k: K::lit(b"a") }, put(1, b"a", 5, 1), put(1, b"b", 6, 1), put(2, b"a", 7, 1), put(2, b"b", 8, 1)]),
+    ];
+    txs.last_mut().unwrap().reopen = true;
+    txs.push(tx(vec![Op::TxGet { k: K::lit(b"blob"), how: How::Slice }, Op::Scan { h: 0 }, Op::TxBuckets]));
+    History { pagesize: ps, num_pages: 4, strict: false, populate: false, txs, origin: format!("16 MiB value replaced by one whose leaf is {} pages + 1 byte", k) }
 }
 
 // ---------------------------------------------------------------------------
@@ -377,7 +427,10 @@ pub fn run(ctx: &Ctx) -> Shard {
         (boundary_walk_history(5000), Cfg { pagesize: 5000, num_pages: 4, strict: false, populate: false }),
         (boundary_walk_history(3000), Cfg { pagesize: 3000, num_pages: 4, strict: true, populate: false }),
     ];
+    directed.push((huge_value_history(4096), Cfg { pagesize: 4096, num_pages: 4, strict: false, populate: false }));
     if ctx.thorough() {
+        directed.push((huge_value_history(1024), Cfg { pagesize: 1024, num_pages: 4, strict: true, populate: false }));
+        directed.push((huge_value_history(65536), Cfg { pagesize: 65536, num_pages: 4, strict: false, populate: true }));
         directed.push((bulk_growth_history(28), Cfg { pagesize: 16384, num_pages: 32, strict: false, populate: true }));
         directed.push((boundary_walk_history(1032), Cfg { pagesize: 1032, num_pages: 4, strict: false, populate: false }));
         directed.push((boundary_walk_history(5000), Cfg { pagesize: 5000, num_pages: 32, strict: true, populate: true }));
